@@ -3,5 +3,6 @@ CONSTANTS
   NStages = 5
   NItems = 5
   MaxFail = 2
-INVARIANTS InOrder StageOrder SingleOwner BoundedLead NoLossNoDup ErrorIsReal SuccessOnlyIfNoFailure
+  CancelFirst = FALSE
+INVARIANTS InOrder StageOrder SingleOwner BoundedLead NoLossNoDup ErrorIsReal SuccessOnlyIfNoFailure NoWorkAfterExit
 PROPERTY Termination
